@@ -316,7 +316,7 @@ func run(args []string) error {
 		}
 		return cipher.PubKey{}, cipher.Sig{}, false
 	}
-	for i := 0; i < n/2+3; i++ {
+	for i := 0; i < n/4+2; i++ {
 		var h cipher.SHA256
 		copy(h[:], g.r.Bytes(32))
 		pk, sig, ok := craftedRN(h)
